@@ -1,6 +1,1602 @@
-//! C14 — not implemented yet.
+//! C14 — Account policies enforce exactly their threshold, weight and spending rules.
+//!
+//! Targets: example `ThresholdPolicyContract`, example `SpendingLimitPolicyContract`, harness
+//! `WeightedPolicy` (library functions 1:1).  The smart account is a plain actor: "the account's
+//! own authorization" == an exact entry for it is attached (`envx::set_auth`) or not.
+//!
+//! Oracle (written from the statement + module docs, not from the code):
+//!  * simple: can_enforce == installed && |authenticated| >= threshold; weighted: == installed &&
+//!    sum of configured weights of the authenticated signers >= threshold (BigInt);
+//!  * install / set_* refuse 0 and unreachable thresholds (simple: > |rule.signers|; weighted:
+//!    > sum of configured weights, or a sum that does not fit u32);
+//!  * for every state and input: can_enforce (failing call == false) == "enforce with the account's
+//!    entry succeeds" in the same state;
+//!  * every state-changing entry point without the account's exact entry fails and changes nothing;
+//!  * a failed enforce leaves the policy state unchanged;
+//!  * spending: the model keeps every authorized (ledger, amount, limit at that time); after each
+//!    successful enforce at ledger c: sum of amounts with ledger in (c - period, c] <= limit
+//!    (window = period consecutive ledgers ending at c; the entry at c - period is OUTSIDE, as the
+//!    module docs draw it), cached total == that sum, stored history <= 1000 entries.
+
 use crate::engine::*;
+use crate::envx::{self, Inv};
+use crate::gen::pick;
+use num_bigint::BigInt;
+use proptest::prelude::*;
+use serde::{Deserialize, Serialize};
+use soroban_sdk::auth::{
+    Context, ContractContext, ContractExecutable, CreateContractHostFnContext, CreateContractWithConstructorHostFnContext,
+};
+use soroban_sdk::testutils::Address as _;
+use soroban_sdk::{Address, Bytes, BytesN, Env, IntoVal, Map, String as SString, Symbol, Val, Vec as SVec};
+use std::collections::BTreeMap;
+use stellar_accounts::policies::simple_threshold::SimpleThresholdAccountParams;
+use stellar_accounts::policies::spending_limit::{
+    SpendingEntry, SpendingLimitAccountParams, SpendingLimitData, SpendingLimitStorageKey,
+};
+use stellar_accounts::policies::weighted_threshold::WeightedThresholdAccountParams;
+use stellar_accounts::smart_account::{ContextRule, ContextRuleType, Signer};
+
+// ------------------------------------------------------------------------------------------
+// shared world
+// ------------------------------------------------------------------------------------------
+
+/// How the (first) unauthorized attempt of a state-changing call is dressed.
+#[derive(Clone, Copy, Debug, Serialize, Deserialize, PartialEq, Eq)]
+pub enum Bad {
+    /// no authorization entry at all
+    NoEntry,
+    /// the OTHER smart account authorizes exactly this invocation
+    OtherActor,
+    /// the account authorizes a different function of the policy with the same arguments
+    WrongFn,
+    /// the account authorizes the same function with the `smart_account` argument changed
+    WrongArgs,
+}
+
+fn bad_strategy(none_w: u32) -> BoxedStrategy<Option<Bad>> {
+    prop_oneof![
+        none_w => Just(None),
+        3 => Just(Some(Bad::NoEntry)),
+        2 => Just(Some(Bad::OtherActor)),
+        1 => Just(Some(Bad::WrongFn)),
+        2 => Just(Some(Bad::WrongArgs)),
+    ]
+    .boxed()
+}
+
+fn slot_strategy() -> BoxedStrategy<u8> {
+    prop_oneof![10 => Just(0u8), 1 => Just(1u8), 1 => Just(2u8)].boxed()
+}
+
+/// Context handed to the policy.
+#[derive(Clone, Copy, Debug, Serialize, Deserialize, PartialEq, Eq)]
+pub enum CtxKind {
+    /// `transfer(from, to, amount: i128)`
+    Transfer,
+    /// `approve(from, spender, amount: i128, live_until: u32)`
+    Approve,
+    /// `transfer_from(spender, from, to, amount)` (not a `transfer`)
+    TransferFrom,
+    /// create-contract host function context
+    Create,
+    /// create-contract-with-constructor context
+    CreateCtor,
+    /// `transfer(from, to)` — no amount
+    Transfer2,
+    /// `transfer(from, to, <not an i128>)`
+    TransferBad(u8),
+}
+
+fn ctx_strategy_any() -> BoxedStrategy<CtxKind> {
+    prop_oneof![
+        4 => Just(CtxKind::Transfer),
+        1 => Just(CtxKind::Approve),
+        1 => Just(CtxKind::Create),
+        1 => Just(CtxKind::CreateCtor),
+        1 => Just(CtxKind::Transfer2),
+    ]
+    .boxed()
+}
+
+#[derive(Clone, Copy, PartialEq, Eq)]
+enum Kind {
+    Simple,
+    Weighted,
+    Spending,
+}
+
+const RULE_IDS: [u32; 2] = [0, 4_000_000_000];
+/// (account index, rule index) per slot; slot 0 is the main one
+const SLOTS: [(usize, usize); 3] = [(0, 0), (0, 1), (1, 0)];
+
+struct World {
+    e: Env,
+    policy: Address,
+    accts: Vec<Address>,
+    outsider: Address,
+    token: Address,
+    pool: Vec<Signer>,
+}
+
+impl World {
+    /// `big_entries`: lift the test host's mainnet per-invocation resource limits (a 1000-entry
+    /// spending history is an ~80 KB ledger entry, above the 64 KiB mainnet entry limit, and the
+    /// host would abort the invocation before the library's own 1000-entry bound is reached)
+    fn new(seq: u32, kind: Kind, pool_n: usize, ext_mask: u32, big_entries: bool) -> World {
+        let e = envx::new_env(seq.max(1), envx::BIG_TTL);
+        if big_entries {
+            e.cost_estimate().disable_resource_limits();
+        }
+        let policy = match kind {
+            Kind::Simple => e.register(crate::examples::threshold_policy::contract::ThresholdPolicyContract, ()),
+            Kind::Weighted => e.register(crate::contracts::c14::weighted_policy::WeightedPolicy, ()),
+            Kind::Spending => e.register(crate::examples::spending_limit_policy::contract::SpendingLimitPolicyContract, ()),
+        };
+        let accts = envx::actors(&e, 2);
+        let outsider = envx::actor(&e);
+        let token = Address::generate(&e);
+        let verifier = Address::generate(&e);
+        let mut pool = vec![];
+        for i in 0..pool_n {
+            if (ext_mask >> i) & 1 == 1 {
+                let key = Bytes::from_slice(&e, &[i as u8 + 1; 32]);
+                pool.push(Signer::External(verifier.clone(), key));
+            } else {
+                pool.push(Signer::Delegated(Address::generate(&e)));
+            }
+        }
+        envx::no_auth(&e);
+        World { e, policy, accts, outsider, token, pool }
+    }
+
+    fn acct(&self, slot: usize) -> &Address {
+        &self.accts[SLOTS[slot].0]
+    }
+    fn other_acct(&self, slot: usize) -> &Address {
+        &self.accts[1 - SLOTS[slot].0]
+    }
+    fn rule_id(&self, slot: usize) -> u32 {
+        RULE_IDS[SLOTS[slot].1]
+    }
+    /// the context rule of `slot` with the first `n` pool signers
+    fn rule(&self, slot: usize, n: usize) -> ContextRule {
+        let e = &self.e;
+        let mut signers = SVec::new(e);
+        for s in self.pool.iter().take(n) {
+            signers.push_back(s.clone());
+        }
+        let mut policies = SVec::new(e);
+        policies.push_back(self.policy.clone());
+        ContextRule {
+            id: self.rule_id(slot),
+            context_type: ContextRuleType::Default,
+            name: SString::from_str(e, "rule"),
+            signers,
+            policies,
+            valid_until: None,
+        }
+    }
+    /// duplicate-free subset of the rule's first `n` signers: `k` of them starting at `rot`
+    fn subset(&self, n: usize, k: usize, rot: usize) -> SVec<Signer> {
+        let mut v = SVec::new(&self.e);
+        if n == 0 {
+            return v;
+        }
+        for j in 0..k.min(n) {
+            v.push_back(self.pool[(rot + j) % n].clone());
+        }
+        v
+    }
+    fn subset_mask(&self, n: usize, mask: u32) -> SVec<Signer> {
+        let mut v = SVec::new(&self.e);
+        for j in 0..n {
+            if (mask >> j) & 1 == 1 {
+                v.push_back(self.pool[j].clone());
+            }
+        }
+        v
+    }
+
+    fn ctx(&self, kind: &CtxKind, amount: i128) -> Context {
+        let e = &self.e;
+        let from = self.accts[0].clone();
+        let to = self.outsider.clone();
+        let call = |name: &str, args: SVec<Val>| {
+            Context::Contract(ContractContext { contract: self.token.clone(), fn_name: Symbol::new(e, name), args })
+        };
+        match kind {
+            CtxKind::Transfer => call("transfer", args![e; from, to, amount]),
+            CtxKind::Approve => call("approve", args![e; from, to, amount, 1000u32]),
+            CtxKind::TransferFrom => call("transfer_from", args![e; to.clone(), from, to, amount]),
+            CtxKind::Transfer2 => call("transfer", args![e; from, to]),
+            CtxKind::TransferBad(k) => {
+                let third: Val = match k % 6 {
+                    0 => 5u32.into_val(e),
+                    1 => to.clone().into_val(e),
+                    2 => 7u128.into_val(e),
+                    3 => 7i64.into_val(e),
+                    4 => ().into_val(e),
+                    _ => Symbol::new(e, "one").into_val(e),
+                };
+                call("transfer", args![e; from, to, third])
+            }
+            CtxKind::Create => Context::CreateContractHostFn(CreateContractHostFnContext {
+                executable: ContractExecutable::Wasm(BytesN::from_array(e, &[1u8; 32])),
+                salt: BytesN::from_array(e, &[2u8; 32]),
+            }),
+            CtxKind::CreateCtor => Context::CreateContractWithCtorHostFn(CreateContractWithConstructorHostFnContext {
+                executable: ContractExecutable::Wasm(BytesN::from_array(e, &[1u8; 32])),
+                salt: BytesN::from_array(e, &[2u8; 32]),
+                constructor_args: args![e; from, to, amount],
+            }),
+        }
+    }
+
+    /// invoke a policy function with the account's exact entry (plus an unrelated one if `surplus`)
+    fn call_authorized(&self, func: &str, args: &SVec<Val>, slot: usize, surplus: bool) -> Result<Val, String> {
+        let e = &self.e;
+        let inv = Inv::new(&self.policy, func, args.clone());
+        if surplus {
+            let junk = Inv::new(&self.policy, "uninstall", args![e; 1u32]);
+            envx::set_auth(e, &[(self.acct(slot), &inv), (&self.outsider, &junk)]);
+        } else {
+            envx::set_auth(e, &[(self.acct(slot), &inv)]);
+        }
+        let r = envx::call(e, &self.policy, func, args.clone());
+        envx::no_auth(e);
+        r
+    }
+
+    /// invoke WITHOUT the account's exact entry
+    fn call_unauthorized(&self, func: &str, args: &SVec<Val>, slot: usize, bad: Bad) -> Result<Val, String> {
+        let e = &self.e;
+        match bad {
+            Bad::NoEntry => envx::no_auth(e),
+            Bad::OtherActor => {
+                let inv = Inv::new(&self.policy, func, args.clone());
+                envx::set_auth(e, &[(self.other_acct(slot), &inv), (&self.outsider, &inv)]);
+            }
+            Bad::WrongFn => {
+                let f2 = if func == "uninstall" { "install" } else { "uninstall" };
+                let inv = Inv::new(&self.policy, f2, args.clone());
+                envx::set_auth(e, &[(self.acct(slot), &inv)]);
+            }
+            Bad::WrongArgs => {
+                let mut a2: SVec<Val> = SVec::new(e);
+                let len = args.len();
+                for (i, v) in args.iter().enumerate() {
+                    if i as u32 + 1 == len {
+                        a2.push_back(self.outsider.clone().into_val(e));
+                    } else {
+                        a2.push_back(v);
+                    }
+                }
+                let inv = Inv::new(&self.policy, func, a2);
+                envx::set_auth(e, &[(self.acct(slot), &inv)]);
+            }
+        }
+        let r = envx::call(e, &self.policy, func, args.clone());
+        envx::no_auth(e);
+        r
+    }
+
+    /// read-only can_enforce; a failing call counts as `false` (second component: the call failed)
+    fn can_enforce(&self, args: &SVec<Val>) -> (bool, bool) {
+        envx::no_auth(&self.e);
+        match envx::call_t::<bool>(&self.e, &self.policy, "can_enforce", args.clone()) {
+            Ok(b) => (b, false),
+            Err(_) => (false, true),
+        }
+    }
+}
+
+/// The unauthorized attempt (if requested): must fail and leave `dump()` equal to `before`.
+fn probe_unauthorized<D: PartialEq + std::fmt::Debug>(
+    w: &World,
+    ctx: &mut Ctx,
+    sub: &str,
+    func: &str,
+    args: &SVec<Val>,
+    slot: usize,
+    bad: &Option<Bad>,
+    before: &D,
+    dump: &dyn Fn() -> Result<D, Violation>,
+) -> R {
+    let Some(b) = bad else { return Ok(()) };
+    let r = w.call_unauthorized(func, args, slot, *b);
+    ctx.op(r.is_ok());
+    ctx.class("unauthorized_attempt");
+    if r.is_ok() {
+        return Err(violation(
+            format!("C14/{sub}/{func}/accepted-without-account-auth"),
+            format!("{func} succeeded with auth mode {b:?} (no exact entry of the smart account attached)"),
+        ));
+    }
+    let after = dump()?;
+    if &after != before {
+        return Err(violation(
+            format!("C14/{sub}/{func}/unauthorized-call-changed-state"),
+            format!("{func} with auth mode {b:?} failed but state changed: before {before:?} after {after:?}"),
+        ));
+    }
+    Ok(())
+}
+
+// ------------------------------------------------------------------------------------------
+// sub 1: simple threshold (example ThresholdPolicyContract)
+// ------------------------------------------------------------------------------------------
+
+#[derive(Clone, Copy, Debug, Serialize, Deserialize)]
+pub enum Thr {
+    Zero,
+    One,
+    NMinus1,
+    N,
+    NPlus1,
+    Max,
+    Raw(u32),
+}
+
+#[derive(Clone, Copy, Debug, Serialize, Deserialize)]
+pub enum Sub {
+    /// |authenticated| = threshold + d (clamped to 0..=n)
+    ThrPlus(i8),
+    Count(u8),
+    All,
+    Empty,
+}
+
+#[derive(Clone, Debug, Serialize, Deserialize)]
+pub enum SOp {
+    Install { slot: u8, thr: Thr, bad: Option<Bad>, surplus: bool },
+    SetThreshold { slot: u8, thr: Thr, bad: Option<Bad>, surplus: bool },
+    Uninstall { slot: u8, bad: Option<Bad>, surplus: bool },
+    Check { slot: u8, sub: Sub, rot: u8, ctx: CtxKind, bad: Option<Bad>, surplus: bool },
+    /// the rule's signer set changes (the policy is not notified; docs: "signer set divergence")
+    Resize { n: u8 },
+}
+
+#[derive(Clone, Debug, Serialize, Deserialize)]
+pub struct SimpleCase {
+    pub seq: u32,
+    pub n: u8,
+    pub ext_mask: u16,
+    pub ops: Vec<SOp>,
+}
+
+fn thr_strategy() -> BoxedStrategy<Thr> {
+    prop_oneof![
+        2 => Just(Thr::Zero),
+        3 => Just(Thr::One),
+        3 => Just(Thr::NMinus1),
+        4 => Just(Thr::N),
+        3 => Just(Thr::NPlus1),
+        1 => Just(Thr::Max),
+        3 => (0u32..=17).prop_map(Thr::Raw),
+        1 => prop_oneof![Just(u32::MAX - 1), Just(1u32 << 31), Just(16u32), Just(256u32)].prop_map(Thr::Raw),
+    ]
+    .boxed()
+}
+
+fn sub_strategy() -> BoxedStrategy<Sub> {
+    prop_oneof![
+        6 => (-1i8..=1).prop_map(Sub::ThrPlus),
+        2 => (0u8..=15).prop_map(Sub::Count),
+        1 => Just(Sub::All),
+        1 => Just(Sub::Empty),
+    ]
+    .boxed()
+}
+
+fn simple_strategy(tier: Tier) -> BoxedStrategy<SimpleCase> {
+    let max_ops = tier.pick(24usize, 40usize);
+    let op = prop_oneof![
+        4 => (slot_strategy(), thr_strategy(), bad_strategy(1), proptest::bool::weighted(0.15))
+            .prop_map(|(slot, thr, bad, surplus)| SOp::Install { slot, thr, bad, surplus }),
+        4 => (slot_strategy(), thr_strategy(), bad_strategy(1), proptest::bool::weighted(0.15))
+            .prop_map(|(slot, thr, bad, surplus)| SOp::SetThreshold { slot, thr, bad, surplus }),
+        2 => (slot_strategy(), bad_strategy(1), proptest::bool::weighted(0.15))
+            .prop_map(|(slot, bad, surplus)| SOp::Uninstall { slot, bad, surplus }),
+        9 => (slot_strategy(), sub_strategy(), 0u8..16, ctx_strategy_any(), bad_strategy(1), proptest::bool::weighted(0.15))
+            .prop_map(|(slot, sub, rot, ctx, bad, surplus)| SOp::Check { slot, sub, rot, ctx, bad, surplus }),
+        1 => (0u8..=15).prop_map(|n| SOp::Resize { n }),
+    ];
+    let base = (
+        prop_oneof![3 => 1u32..=5, 2 => 1u32..100_000],
+        prop_oneof![1 => Just(0u8), 1 => Just(1u8), 1 => Just(15u8), 6 => 0u8..=15],
+        any::<u16>(),
+        proptest::collection::vec(op, 1..max_ops),
+    )
+        .prop_map(|(seq, n, ext_mask, ops)| SimpleCase { seq, n, ext_mask, ops })
+        .boxed();
+    // most histories start from an installed main slot (otherwise `false` answers dominate)
+    (base, 0u8..10, prop_oneof![Just(Thr::One), Just(Thr::N), Just(Thr::NMinus1), (1u32..=4).prop_map(Thr::Raw)])
+        .prop_map(|(mut c, coin, thr)| {
+            if coin < 7 {
+                c.ops.insert(0, SOp::Install { slot: 0, thr, bad: Some(Bad::NoEntry), surplus: false });
+            }
+            c
+        })
+        .boxed()
+}
+
+fn resolve_thr(t: &Thr, n: usize) -> u32 {
+    match t {
+        Thr::Zero => 0,
+        Thr::One => 1,
+        Thr::NMinus1 => (n as u32).saturating_sub(1),
+        Thr::N => n as u32,
+        Thr::NPlus1 => n as u32 + 1,
+        Thr::Max => u32::MAX,
+        Thr::Raw(x) => *x,
+    }
+}
+
+fn simple_dump(w: &World) -> Result<Vec<Option<u32>>, Violation> {
+    let mut out = vec![];
+    for s in 0..SLOTS.len() {
+        let r = envx::call_t::<u32>(&w.e, &w.policy, "get_threshold", args![&w.e; w.rule_id(s), w.acct(s).clone()]);
+        out.push(r.ok());
+    }
+    Ok(out)
+}
+
+pub fn run_simple(case: &SimpleCase, ctx: &mut Ctx) -> R {
+    let w = World::new(case.seq, Kind::Simple, 16, case.ext_mask as u32, false);
+    let e = &w.e;
+    let mut n = case.n.min(15) as usize;
+    let mut model: Vec<Option<u32>> = vec![None; SLOTS.len()];
+    let (mut saw_true, mut saw_false) = (false, false);
+    let dump = || simple_dump(&w);
+
+    let mut before = dump()?;
+    ensure!(before == model, "C14/simple/state/model-mismatch", "fresh contract: get_threshold per slot {:?}", before);
+    for (step, op) in case.ops.iter().enumerate() {
+        match op {
+            SOp::Resize { n: nn } => {
+                n = (*nn).min(15) as usize;
+                ctx.class("simple_resize");
+            }
+            SOp::Install { slot, thr, bad, surplus } => {
+                let s = *slot as usize % SLOTS.len();
+                let t = resolve_thr(thr, n);
+                let args = args![e; SimpleThresholdAccountParams { threshold: t }, w.rule(s, n), w.acct(s).clone()];
+                probe_unauthorized(&w, ctx, "simple", "install", &args, s, bad, &before, &dump)?;
+                let r = w.call_authorized("install", &args, s, *surplus);
+                ctx.op(r.is_ok());
+                let valid = t >= 1 && t as usize <= n;
+                if r.is_ok() {
+                    ensure!(t != 0, "C14/simple/install/zero-threshold-accepted", "step {step}: install(threshold 0) succeeded with {n} signers");
+                    ensure!(t as usize <= n, "C14/simple/install/unreachable-threshold-accepted", "step {step}: install(threshold {t}) succeeded with only {n} rule signers");
+                    ensure!(model[s].is_none(), "C14/simple/install/reinstall-accepted", "step {step}: install succeeded although already installed (threshold {:?})", model[s]);
+                    model[s] = Some(t);
+                    ctx.class("simple_install_ok");
+                } else {
+                    ensure!(!(valid && model[s].is_none()), "C14/simple/install/valid-install-refused", "step {step}: install(threshold {t}) with {n} signers on a fresh slot failed: {:?}", r);
+                    ctx.class(if !valid { "simple_install_refused_invalid" } else { "simple_install_refused_installed" });
+                }
+            }
+            SOp::SetThreshold { slot, thr, bad, surplus } => {
+                let s = *slot as usize % SLOTS.len();
+                let t = resolve_thr(thr, n);
+                let args = args![e; t, w.rule(s, n), w.acct(s).clone()];
+                probe_unauthorized(&w, ctx, "simple", "set_threshold", &args, s, bad, &before, &dump)?;
+                let r = w.call_authorized("set_threshold", &args, s, *surplus);
+                ctx.op(r.is_ok());
+                let valid = t >= 1 && t as usize <= n;
+                if r.is_ok() {
+                    ensure!(t != 0, "C14/simple/set_threshold/zero-threshold-accepted", "step {step}: set_threshold(0) succeeded with {n} signers");
+                    ensure!(t as usize <= n, "C14/simple/set_threshold/unreachable-threshold-accepted", "step {step}: set_threshold({t}) succeeded with only {n} rule signers");
+                    if model[s].is_none() {
+                        // docs do not say whether set_threshold needs a prior install: adopt
+                        ctx.class("simple_set_threshold_on_uninstalled");
+                    }
+                    model[s] = Some(t);
+                    ctx.class("simple_set_ok");
+                } else {
+                    if model[s].is_some() {
+                        ensure!(!valid, "C14/simple/set_threshold/valid-threshold-refused", "step {step}: set_threshold({t}) with {n} signers failed: {:?}", r);
+                    }
+                    ctx.class("simple_set_refused");
+                }
+            }
+            SOp::Uninstall { slot, bad, surplus } => {
+                let s = *slot as usize % SLOTS.len();
+                let args = args![e; w.rule(s, n), w.acct(s).clone()];
+                probe_unauthorized(&w, ctx, "simple", "uninstall", &args, s, bad, &before, &dump)?;
+                let r = w.call_authorized("uninstall", &args, s, *surplus);
+                ctx.op(r.is_ok());
+                if r.is_ok() {
+                    model[s] = None;
+                } else {
+                    ensure!(model[s].is_none(), "C14/simple/uninstall/refused", "step {step}: uninstall of an installed policy failed: {:?}", r);
+                }
+            }
+            SOp::Check { slot, sub, rot, ctx: ck, bad, surplus } => {
+                let s = *slot as usize % SLOTS.len();
+                let thr = model[s];
+                let k = match sub {
+                    Sub::ThrPlus(d) => (thr.unwrap_or(1) as i64 + *d as i64).clamp(0, n as i64) as usize,
+                    Sub::Count(c) => (*c as usize).min(n),
+                    Sub::All => n,
+                    Sub::Empty => 0,
+                };
+                let auth = w.subset(n, k, *rot as usize);
+                let k = auth.len() as usize;
+                let args = args![e; w.ctx(ck, 5), auth, w.rule(s, n), w.acct(s).clone()];
+                let expected = matches!(thr, Some(t) if k as u64 >= t as u64);
+                let (can, can_failed) = w.can_enforce(&args);
+                if can_failed {
+                    ctx.class("can_enforce_call_failed");
+                }
+                ensure!(
+                    can == expected,
+                    "C14/simple/can_enforce/wrong-answer",
+                    "step {step}: can_enforce = {can} with {k} authenticated of {n} signers, threshold {:?}",
+                    thr
+                );
+                probe_unauthorized(&w, ctx, "simple", "enforce", &args, s, bad, &before, &dump)?;
+                let r = w.call_authorized("enforce", &args, s, *surplus);
+                ctx.op(r.is_ok());
+                ensure!(
+                    r.is_ok() == can,
+                    "C14/simple/enforce/disagrees-with-can_enforce",
+                    "step {step}: can_enforce = {can} but authorized enforce -> {:?} ({k} authenticated, threshold {:?})",
+                    r,
+                    thr
+                );
+                if can {
+                    saw_true = true;
+                    ctx.class("simple_can_true");
+                    if thr == Some(k as u32) {
+                        ctx.class("simple_exactly_at_threshold");
+                    }
+                } else {
+                    saw_false = true;
+                    ctx.class("simple_can_false");
+                    if matches!(thr, Some(t) if t == k as u32 + 1) {
+                        ctx.class("simple_one_below_threshold");
+                    }
+                }
+            }
+        }
+        let after = dump()?;
+        ensure!(after == model, "C14/simple/state/model-mismatch", "after step {step} {:?}: get_threshold per slot {:?}, model {:?}", op, after, model);
+        before = after;
+    }
+    if saw_true && saw_false {
+        ctx.nontrivial = true;
+        ctx.class("nontrivial");
+        ctx.class("nontrivial_simple");
+    }
+    Ok(())
+}
+
+// ------------------------------------------------------------------------------------------
+// sub 2: weighted threshold (harness WeightedPolicy = weighted_threshold::* 1:1)
+// ------------------------------------------------------------------------------------------
+
+#[derive(Clone, Copy, Debug, Serialize, Deserialize)]
+pub enum W {
+    Abs(u32),
+    /// weight such that the configured total becomes u32::MAX + d
+    FillTotalTo(i8),
+    /// weight such that the configured total becomes threshold + d
+    ThrEdge(i8),
+}
+
+#[derive(Clone, Copy, Debug, Serialize, Deserialize)]
+pub enum WThr {
+    Zero,
+    One,
+    /// configured total + d
+    TotalPlus(i8),
+    Max,
+    Raw(u32),
+    /// (sum of the weights of the rule signers selected by the mask) + d; remembers the mask
+    MaskSumPlus(u8, i8),
+}
+
+#[derive(Clone, Copy, Debug, Serialize, Deserialize)]
+pub enum SubW {
+    Mask(u8),
+    All,
+    Empty,
+    /// the mask last used by a `MaskSumPlus` threshold
+    LastThrMask,
+}
+
+#[derive(Clone, Debug, Serialize, Deserialize)]
+pub enum WOp {
+    Install { slot: u8, weights: Vec<(u16, W)>, thr: WThr, bad: Option<Bad>, surplus: bool },
+    SetThreshold { slot: u8, thr: WThr, bad: Option<Bad>, surplus: bool },
+    SetWeight { slot: u8, key: u16, w: W, bad: Option<Bad>, surplus: bool },
+    Uninstall { slot: u8, bad: Option<Bad>, surplus: bool },
+    Check { slot: u8, sub: SubW, ctx: CtxKind, bad: Option<Bad>, surplus: bool },
+}
+
+#[derive(Clone, Debug, Serialize, Deserialize)]
+pub struct WCase {
+    pub seq: u32,
+    /// rule signers
+    pub n: u8,
+    /// additional weight-map keys that are not rule signers
+    pub extras: u8,
+    pub ext_mask: u16,
+    pub ops: Vec<WOp>,
+}
+
+fn w_strategy() -> BoxedStrategy<W> {
+    prop_oneof![
+        6 => prop_oneof![Just(0u32), Just(1), Just(2), Just(3), Just(5), Just(10), Just(100)].prop_map(W::Abs),
+        3 => prop_oneof![Just(u32::MAX), Just(u32::MAX - 1), Just(u32::MAX / 2), Just(u32::MAX / 2 + 1), Just(1u32 << 31), Just((1u32 << 31) - 1)]
+            .prop_map(W::Abs),
+        1 => any::<u32>().prop_map(W::Abs),
+        3 => (-1i8..=2).prop_map(W::FillTotalTo),
+        3 => (-1i8..=1).prop_map(W::ThrEdge),
+    ]
+    .boxed()
+}
+
+fn wthr_strategy() -> BoxedStrategy<WThr> {
+    prop_oneof![
+        2 => Just(WThr::Zero),
+        2 => Just(WThr::One),
+        6 => (-1i8..=1).prop_map(WThr::TotalPlus),
+        1 => Just(WThr::Max),
+        2 => prop_oneof![0u32..=20, any::<u32>()].prop_map(WThr::Raw),
+        6 => (any::<u8>(), -1i8..=1).prop_map(|(m, d)| WThr::MaskSumPlus(m, d)),
+    ]
+    .boxed()
+}
+
+fn subw_strategy() -> BoxedStrategy<SubW> {
+    prop_oneof![
+        4 => any::<u8>().prop_map(SubW::Mask),
+        2 => Just(SubW::All),
+        1 => Just(SubW::Empty),
+        5 => Just(SubW::LastThrMask),
+    ]
+    .boxed()
+}
+
+fn weighted_strategy(tier: Tier) -> BoxedStrategy<WCase> {
+    let max_ops = tier.pick(24usize, 40usize);
+    let install = (
+        slot_strategy(),
+        proptest::collection::vec((any::<u16>(), w_strategy()), 0..=7),
+        wthr_strategy(),
+        bad_strategy(1),
+        proptest::bool::weighted(0.15),
+    )
+        .prop_map(|(slot, weights, thr, bad, surplus)| WOp::Install { slot, weights, thr, bad, surplus });
+    let op = prop_oneof![
+        3 => install.clone(),
+        4 => (slot_strategy(), wthr_strategy(), bad_strategy(1), proptest::bool::weighted(0.15))
+            .prop_map(|(slot, thr, bad, surplus)| WOp::SetThreshold { slot, thr, bad, surplus }),
+        5 => (slot_strategy(), any::<u16>(), w_strategy(), bad_strategy(1), proptest::bool::weighted(0.15))
+            .prop_map(|(slot, key, w, bad, surplus)| WOp::SetWeight { slot, key, w, bad, surplus }),
+        1 => (slot_strategy(), bad_strategy(1), proptest::bool::weighted(0.15))
+            .prop_map(|(slot, bad, surplus)| WOp::Uninstall { slot, bad, surplus }),
+        9 => (slot_strategy(), subw_strategy(), ctx_strategy_any(), bad_strategy(1), proptest::bool::weighted(0.15))
+            .prop_map(|(slot, sub, ctx, bad, surplus)| WOp::Check { slot, sub, ctx, bad, surplus }),
+    ];
+    let base = (
+        prop_oneof![3 => 1u32..=5, 2 => 1u32..100_000],
+        prop_oneof![1 => Just(0u8), 1 => Just(1u8), 8 => 2u8..=6],
+        0u8..=2,
+        any::<u16>(),
+        proptest::collection::vec(op, 1..max_ops),
+    )
+        .prop_map(|(seq, n, extras, ext_mask, ops)| WCase { seq, n, extras, ext_mask, ops });
+    // most histories start from an installed main slot: small distinct weights, reachable threshold
+    (base, 0u8..10, proptest::collection::vec(1u32..=9, 8), any::<u8>())
+        .prop_map(|(mut c, coin, ws, m)| {
+            if coin < 7 {
+                let nk = (c.n + c.extras).max(1) as usize;
+                let weights: Vec<(u16, W)> =
+                    (0..nk).map(|i| ((((i as u32) << 16) / nk as u32 + 1).min(65535) as u16, W::Abs(ws[i % 8]))).collect();
+                c.ops.insert(0, WOp::Install { slot: 0, weights, thr: WThr::MaskSumPlus(m | 1, 0), bad: Some(Bad::NoEntry), surplus: false });
+            }
+            c
+        })
+        .boxed()
+}
+
+#[derive(Clone, Debug, PartialEq, Eq)]
+struct WM {
+    thr: u32,
+    weights: BTreeMap<usize, u32>,
+}
+impl WM {
+    fn total(&self) -> u64 {
+        self.weights.values().map(|x| *x as u64).sum()
+    }
+    fn normalised(&self) -> WM {
+        WM { thr: self.thr, weights: self.weights.iter().filter(|(_, w)| **w != 0).map(|(k, w)| (*k, *w)).collect() }
+    }
+}
+
+fn weighted_dump(w: &World, n: usize) -> Result<Vec<Option<WM>>, Violation> {
+    let e = &w.e;
+    let mut out = vec![];
+    for s in 0..SLOTS.len() {
+        let t = envx::call_t::<u32>(e, &w.policy, "get_threshold", args![e; w.rule_id(s), w.acct(s).clone()]);
+        let m = envx::call_t::<Map<Signer, u32>>(e, &w.policy, "get_signer_weights", args![e; w.rule(s, n), w.acct(s).clone()]);
+        match (t, m) {
+            (Ok(thr), Ok(map)) => {
+                let mut weights = BTreeMap::new();
+                for (sg, wt) in map.iter() {
+                    let Some(i) = w.pool.iter().position(|p| *p == sg) else {
+                        bail!("C14/weighted/get_signer_weights/unknown-signer", "slot {s}: weight map contains a signer that was never configured")
+                    };
+                    if wt != 0 {
+                        weights.insert(i, wt);
+                    }
+                }
+                out.push(Some(WM { thr, weights }));
+            }
+            (Err(_), Err(_)) => out.push(None),
+            (t, m) => bail!("C14/weighted/getters/inconsistent", "slot {s}: get_threshold -> {:?} but get_signer_weights ok = {}", t, m.is_ok()),
+        }
+    }
+    Ok(out)
+}
+
+fn resolve_w(w: &W, cur: &BTreeMap<usize, u32>, key: usize, thr: Option<u32>) -> u32 {
+    let others: i64 = cur.iter().filter(|(k, _)| **k != key).map(|(_, v)| *v as i64).sum();
+    match w {
+        W::Abs(x) => *x,
+        W::FillTotalTo(d) => (u32::MAX as i64 + *d as i64 - others).clamp(0, u32::MAX as i64) as u32,
+        W::ThrEdge(d) => match thr {
+            Some(t) => (t as i64 + *d as i64 - others).clamp(0, u32::MAX as i64) as u32,
+            None => 1,
+        },
+    }
+}
+
+fn resolve_wthr(t: &WThr, weights: &BTreeMap<usize, u32>, n: usize, last_mask: &mut u32) -> u32 {
+    let total: i64 = weights.values().map(|x| *x as i64).sum();
+    let cl = |x: i64| x.clamp(0, u32::MAX as i64) as u32;
+    match t {
+        WThr::Zero => 0,
+        WThr::One => 1,
+        WThr::TotalPlus(d) => cl(total + *d as i64),
+        WThr::Max => u32::MAX,
+        WThr::Raw(x) => *x,
+        WThr::MaskSumPlus(m, d) => {
+            *last_mask = *m as u32;
+            let sum: i64 = weights.iter().filter(|(k, _)| **k < n && (*m as u32 >> **k) & 1 == 1).map(|(_, v)| *v as i64).sum();
+            cl(sum + *d as i64)
+        }
+    }
+}
+
+pub fn run_weighted(case: &WCase, ctx: &mut Ctx) -> R {
+    let n = case.n.min(6) as usize;
+    let nkeys = n + case.extras.min(2) as usize;
+    let w = World::new(case.seq, Kind::Weighted, nkeys.max(1), case.ext_mask as u32, false);
+    let e = &w.e;
+    let mut model: Vec<Option<WM>> = vec![None; SLOTS.len()];
+    let mut last_mask: u32 = 0xff;
+    let (mut saw_true, mut saw_false) = (false, false);
+    let dump = || weighted_dump(&w, n);
+    let norm = |m: &Vec<Option<WM>>| -> Vec<Option<WM>> { m.iter().map(|x| x.as_ref().map(|y| y.normalised())).collect() };
+
+    let mut before = dump()?;
+    ensure!(before == norm(&model), "C14/weighted/state/model-mismatch", "fresh contract: getters {:?}", before);
+    for (step, op) in case.ops.iter().enumerate() {
+        match op {
+            WOp::Install { slot, weights, thr, bad, surplus } => {
+                let s = *slot as usize % SLOTS.len();
+                let mut map: BTreeMap<usize, u32> = BTreeMap::new();
+                if nkeys > 0 {
+                    for (ksel, wt) in weights {
+                        let k = pick(*ksel, nkeys);
+                        let x = resolve_w(wt, &map, k, None);
+                        map.insert(k, x);
+                    }
+                }
+                let t = resolve_wthr(thr, &map, n, &mut last_mask);
+                let mut smap: Map<Signer, u32> = Map::new(e);
+                for (k, x) in &map {
+                    smap.set(w.pool[*k].clone(), *x);
+                }
+                let params = WeightedThresholdAccountParams { signer_weights: smap, threshold: t };
+                let args = args![e; params, w.rule(s, n), w.acct(s).clone()];
+                probe_unauthorized(&w, ctx, "weighted", "install", &args, s, bad, &before, &dump)?;
+                let r = w.call_authorized("install", &args, s, *surplus);
+                ctx.op(r.is_ok());
+                let total: u64 = map.values().map(|x| *x as u64).sum();
+                let overflow = total > u32::MAX as u64;
+                if overflow {
+                    ctx.class("weighted_install_sum_past_u32");
+                }
+                let valid = !overflow && t >= 1 && t as u64 <= total;
+                if r.is_ok() {
+                    ensure!(t != 0, "C14/weighted/install/zero-threshold-accepted", "step {step}: install(threshold 0) succeeded");
+                    ensure!(!overflow, "C14/weighted/install/overflowing-sum-accepted", "step {step}: install succeeded with weights summing to {total} > u32::MAX (threshold {t})");
+                    ensure!(t as u64 <= total, "C14/weighted/install/unreachable-threshold-accepted", "step {step}: install(threshold {t}) succeeded, configured total weight {total}");
+                    ensure!(model[s].is_none(), "C14/weighted/install/reinstall-accepted", "step {step}: install succeeded although already installed");
+                    model[s] = Some(WM { thr: t, weights: map });
+                    ctx.class("weighted_install_ok");
+                } else {
+                    ensure!(!(valid && model[s].is_none()), "C14/weighted/install/valid-install-refused", "step {step}: install(threshold {t}, total {total}) on a fresh slot failed: {:?}", r);
+                    ctx.class("weighted_install_refused");
+                }
+            }
+            WOp::SetThreshold { slot, thr, bad, surplus } => {
+                let s = *slot as usize % SLOTS.len();
+                let empty = BTreeMap::new();
+                let cur = model[s].as_ref().map(|m| &m.weights).unwrap_or(&empty);
+                let t = resolve_wthr(thr, cur, n, &mut last_mask);
+                let args = args![e; t, w.rule(s, n), w.acct(s).clone()];
+                probe_unauthorized(&w, ctx, "weighted", "set_threshold", &args, s, bad, &before, &dump)?;
+                let r = w.call_authorized("set_threshold", &args, s, *surplus);
+                ctx.op(r.is_ok());
+                let total = model[s].as_ref().map(|m| m.total()).unwrap_or(0);
+                if r.is_ok() {
+                    ensure!(model[s].is_some(), "C14/weighted/set_threshold/accepted-uninstalled", "step {step}: set_threshold({t}) succeeded on a slot that is not installed");
+                    ensure!(t != 0, "C14/weighted/set_threshold/zero-threshold-accepted", "step {step}: set_threshold(0) succeeded");
+                    ensure!(t as u64 <= total, "C14/weighted/set_threshold/unreachable-threshold-accepted", "step {step}: set_threshold({t}) succeeded, configured total weight {total}");
+                    model[s].as_mut().unwrap().thr = t;
+                    ctx.class("weighted_set_threshold_ok");
+                } else {
+                    ensure!(
+                        !(model[s].is_some() && t >= 1 && t as u64 <= total),
+                        "C14/weighted/set_threshold/valid-threshold-refused",
+                        "step {step}: set_threshold({t}) with total {total} failed: {:?}",
+                        r
+                    );
+                    ctx.class("weighted_set_threshold_refused");
+                }
+            }
+            WOp::SetWeight { slot, key, w: wt, bad, surplus } => {
+                let s = *slot as usize % SLOTS.len();
+                if nkeys == 0 {
+                    ctx.class("skipped_op");
+                    continue;
+                }
+                let k = pick(*key, nkeys);
+                let empty = BTreeMap::new();
+                let cur = model[s].as_ref().map(|m| &m.weights).unwrap_or(&empty);
+                let x = resolve_w(wt, cur, k, model[s].as_ref().map(|m| m.thr));
+                let args = args![e; w.pool[k].clone(), x, w.rule(s, n), w.acct(s).clone()];
+                probe_unauthorized(&w, ctx, "weighted", "set_signer_weight", &args, s, bad, &before, &dump)?;
+                let r = w.call_authorized("set_signer_weight", &args, s, *surplus);
+                ctx.op(r.is_ok());
+                let mut newmap = cur.clone();
+                newmap.insert(k, x);
+                let total: u64 = newmap.values().map(|v| *v as u64).sum();
+                let overflow = total > u32::MAX as u64;
+                if overflow {
+                    ctx.class("weighted_set_weight_sum_past_u32");
+                }
+                let thr = model[s].as_ref().map(|m| m.thr);
+                if r.is_ok() {
+                    ensure!(model[s].is_some(), "C14/weighted/set_signer_weight/accepted-uninstalled", "step {step}: set_signer_weight succeeded on a slot that is not installed");
+                    ensure!(!overflow, "C14/weighted/set_signer_weight/overflowing-sum-accepted", "step {step}: set_signer_weight({x}) succeeded, new total {total} > u32::MAX");
+                    ensure!(
+                        thr.unwrap() as u64 <= total,
+                        "C14/weighted/set_signer_weight/threshold-left-unreachable",
+                        "step {step}: set_signer_weight({x}) succeeded, new total {total} < threshold {:?}",
+                        thr
+                    );
+                    model[s].as_mut().unwrap().weights = newmap;
+                    ctx.class("weighted_set_weight_ok");
+                    if thr.unwrap() as u64 == total {
+                        ctx.class("weighted_total_equals_threshold");
+                    }
+                } else {
+                    ensure!(
+                        !(model[s].is_some() && !overflow && thr.unwrap() as u64 <= total),
+                        "C14/weighted/set_signer_weight/valid-weight-refused",
+                        "step {step}: set_signer_weight({x}) (new total {total}, threshold {:?}) failed: {:?}",
+                        thr,
+                        r
+                    );
+                    ctx.class("weighted_set_weight_refused");
+                }
+            }
+            WOp::Uninstall { slot, bad, surplus } => {
+                let s = *slot as usize % SLOTS.len();
+                let args = args![e; w.rule(s, n), w.acct(s).clone()];
+                probe_unauthorized(&w, ctx, "weighted", "uninstall", &args, s, bad, &before, &dump)?;
+                let r = w.call_authorized("uninstall", &args, s, *surplus);
+                ctx.op(r.is_ok());
+                if r.is_ok() {
+                    model[s] = None;
+                } else {
+                    ensure!(model[s].is_none(), "C14/weighted/uninstall/refused", "step {step}: uninstall of an installed policy failed: {:?}", r);
+                }
+            }
+            WOp::Check { slot, sub, ctx: ck, bad, surplus } => {
+                let s = *slot as usize % SLOTS.len();
+                let full = (1u32 << n) - 1;
+                let mask = match sub {
+                    SubW::Mask(m) => *m as u32 & full,
+                    SubW::All => full,
+                    SubW::Empty => 0,
+                    SubW::LastThrMask => last_mask & full,
+                };
+                let auth = w.subset_mask(n, mask);
+                let args = args![e; w.ctx(ck, 5), auth, w.rule(s, n), w.acct(s).clone()];
+                let sum: Option<u64> = model[s]
+                    .as_ref()
+                    .map(|m| m.weights.iter().filter(|(k, _)| **k < n && (mask >> **k) & 1 == 1).map(|(_, v)| *v as u64).sum());
+                let thr = model[s].as_ref().map(|m| m.thr);
+                let expected = matches!((sum, thr), (Some(sm), Some(t)) if sm >= t as u64);
+                let (can, can_failed) = w.can_enforce(&args);
+                if can_failed {
+                    ctx.class("can_enforce_call_failed");
+                }
+                ensure!(
+                    can == expected,
+                    "C14/weighted/can_enforce/wrong-answer",
+                    "step {step}: can_enforce = {can} (call failed: {can_failed}); authenticated weight {:?}, threshold {:?}, mask {mask:#b}",
+                    sum,
+                    thr
+                );
+                probe_unauthorized(&w, ctx, "weighted", "enforce", &args, s, bad, &before, &dump)?;
+                let r = w.call_authorized("enforce", &args, s, *surplus);
+                ctx.op(r.is_ok());
+                ensure!(
+                    r.is_ok() == can,
+                    "C14/weighted/enforce/disagrees-with-can_enforce",
+                    "step {step}: can_enforce = {can} but authorized enforce -> {:?} (weight {:?}, threshold {:?})",
+                    r,
+                    sum,
+                    thr
+                );
+                if can {
+                    saw_true = true;
+                    ctx.class("weighted_can_true");
+                    if sum == thr.map(|t| t as u64) {
+                        ctx.class("weighted_exactly_at_threshold");
+                    }
+                } else {
+                    saw_false = true;
+                    ctx.class("weighted_can_false");
+                    if matches!((sum, thr), (Some(sm), Some(t)) if sm + 1 == t as u64) {
+                        ctx.class("weighted_one_below_threshold");
+                    }
+                }
+            }
+        }
+        let after = dump()?;
+        ensure!(after == norm(&model), "C14/weighted/state/model-mismatch", "after step {step} {:?}: getters {:?}, model {:?}", op, after, model);
+        before = after;
+    }
+    if saw_true && saw_false {
+        ctx.nontrivial = true;
+        ctx.class("nontrivial");
+        ctx.class("nontrivial_weighted");
+    }
+    Ok(())
+}
+
+// ------------------------------------------------------------------------------------------
+// sub 3: spending limit (example SpendingLimitPolicyContract)
+// ------------------------------------------------------------------------------------------
+
+const LIMITS: [i128; 15] = [
+    1,
+    2,
+    3,
+    10,
+    100,
+    1000,
+    5000,
+    10_000_000,
+    (1i128 << 63) - 1,
+    1i128 << 63,
+    1i128 << 64,
+    1_000_000_000_000_000_000,
+    i128::MAX / 2,
+    i128::MAX - 1,
+    i128::MAX,
+];
+const LARGE: [i128; 6] = [1i128 << 64, i128::MAX / 2, i128::MAX / 2 + 1, i128::MAX - 1, i128::MAX, 1i128 << 100];
+const MAX_HISTORY: usize = 1000;
+const MAX_JUMP: i64 = 2_000_000;
+
+#[derive(Clone, Copy, Debug, Serialize, Deserialize)]
+pub enum Amt {
+    Zero,
+    One,
+    Small(u16),
+    /// (limit - spent in the current window) + d, clamped to 0..=i128::MAX
+    RemPlus(i8),
+    /// limit + d
+    LimitPlus(i8),
+    Large(u8),
+}
+
+#[derive(Clone, Copy, Debug, Serialize, Deserialize)]
+pub enum LimSel {
+    Lattice(u8),
+    /// (spent in the current window) + d
+    SpentPlus(i8),
+    Zero,
+    Neg,
+}
+
+#[derive(Clone, Copy, Debug, Serialize, Deserialize)]
+pub enum Adv {
+    By(u16),
+    /// period + d ledgers
+    Period(i8),
+    /// to (ledger of an authorized transfer) + period + d: d = -1 still inside the window, d = 0 just outside
+    ToEdge { which: u16, d: i8 },
+}
+
+#[derive(Clone, Debug, Serialize, Deserialize)]
+pub enum POp {
+    Attempt { slot: u8, ctx: CtxKind, amt: Amt, signers: u8, bad: Option<Bad>, surplus: bool },
+    SetLimit { slot: u8, lim: LimSel, bad: Option<Bad>, surplus: bool },
+    Advance(Adv),
+    Install { slot: u8, lim: LimSel, period: u32, bad: Option<Bad>, surplus: bool },
+    Uninstall { slot: u8, bad: Option<Bad>, surplus: bool },
+}
+
+/// Pre-filled history of the main slot (near the 1000-entry bound).
+#[derive(Clone, Debug, Serialize, Deserialize)]
+pub struct Seed {
+    pub count: u16,
+    /// 0: all at one ledger, 1: over 2 ledgers, 2: over half the period, 3: over the whole window
+    pub span: u8,
+    pub amt: u8,
+    /// reach the state through `count` enforce calls instead of writing storage (thorough tier)
+    pub via_api: bool,
+}
+
+#[derive(Clone, Debug, Serialize, Deserialize)]
+pub struct PCase {
+    pub seq: u32,
+    pub limit_sel: u8,
+    pub period: u32,
+    pub n_signers: u8,
+    pub seed: Option<Seed>,
+    pub ops: Vec<POp>,
+}
+
+fn limit_idx_strategy() -> BoxedStrategy<u8> {
+    prop_oneof![2 => 0u8..3, 8 => 3u8..7, 3 => 7u8..15].boxed()
+}
+fn period_strategy() -> BoxedStrategy<u32> {
+    prop_oneof![
+        3 => Just(1u32), 4 => Just(2u32), 4 => Just(3u32), 5 => Just(5u32), 4 => Just(10u32), 2 => Just(100u32),
+        1 => Just(17280u32), 1 => Just(1_000_000u32), 1 => Just(u32::MAX), 2 => 1u32..40,
+    ]
+    .boxed()
+}
+fn amt_strategy() -> BoxedStrategy<Amt> {
+    prop_oneof![
+        1 => Just(Amt::Zero),
+        2 => Just(Amt::One),
+        4 => (0u16..400).prop_map(Amt::Small),
+        8 => (-1i8..=1).prop_map(Amt::RemPlus),
+        1 => (-1i8..=1).prop_map(Amt::LimitPlus),
+        1 => (0u8..6).prop_map(Amt::Large),
+    ]
+    .boxed()
+}
+fn limsel_strategy() -> BoxedStrategy<LimSel> {
+    prop_oneof![
+        5 => limit_idx_strategy().prop_map(LimSel::Lattice),
+        5 => (-1i8..=2).prop_map(LimSel::SpentPlus),
+        1 => Just(LimSel::Zero),
+        1 => Just(LimSel::Neg),
+    ]
+    .boxed()
+}
+
+fn spending_strategy(tier: Tier) -> BoxedStrategy<PCase> {
+    let max_ops = tier.pick(50usize, 80usize);
+    let ctxk = prop_oneof![
+        30 => Just(CtxKind::Transfer),
+        1 => Just(CtxKind::Approve),
+        1 => Just(CtxKind::TransferFrom),
+        1 => Just(CtxKind::Create),
+        1 => Just(CtxKind::CreateCtor),
+        1 => Just(CtxKind::Transfer2),
+        2 => (0u8..6).prop_map(CtxKind::TransferBad),
+    ];
+    let op = prop_oneof![
+        24 => (slot_strategy(), ctxk, amt_strategy(), prop_oneof![1 => Just(0u8), 9 => 1u8..=3], bad_strategy(5), proptest::bool::weighted(0.1))
+            .prop_map(|(slot, ctx, amt, signers, bad, surplus)| POp::Attempt { slot, ctx, amt, signers, bad, surplus }),
+        3 => (slot_strategy(), limsel_strategy(), bad_strategy(2), proptest::bool::weighted(0.1))
+            .prop_map(|(slot, lim, bad, surplus)| POp::SetLimit { slot, lim, bad, surplus }),
+        9 => prop_oneof![
+            3 => (0u16..4).prop_map(Adv::By),
+            1 => (0u16..3000).prop_map(Adv::By),
+            2 => (-1i8..=1).prop_map(Adv::Period),
+            6 => (any::<u16>(), -1i8..=1).prop_map(|(which, d)| Adv::ToEdge { which, d }),
+        ]
+        .prop_map(POp::Advance),
+        2 => (slot_strategy(), limsel_strategy(), prop_oneof![1 => Just(0u32), 6 => period_strategy()], bad_strategy(2), proptest::bool::weighted(0.1))
+            .prop_map(|(slot, lim, period, bad, surplus)| POp::Install { slot, lim, period, bad, surplus }),
+        1 => (prop_oneof![2 => Just(0u8), 1 => Just(1u8), 1 => Just(2u8)], bad_strategy(2), proptest::bool::weighted(0.1))
+            .prop_map(|(slot, bad, surplus)| POp::Uninstall { slot, bad, surplus }),
+    ];
+    let thorough = tier == Tier::Thorough;
+    let seed = (prop_oneof![2 => Just(999u16), 2 => Just(1000u16), 1 => Just(998u16)], 0u8..4, 0u8..2, proptest::bool::weighted(0.15))
+        .prop_map(move |(count, span, amt, api)| Seed { count, span, amt, via_api: api && thorough });
+    let plain = (
+        prop_oneof![3 => 1u32..=6, 2 => 1u32..100_000],
+        limit_idx_strategy(),
+        period_strategy(),
+        1u8..=3,
+        proptest::collection::vec(op.clone(), 1..max_ops),
+    )
+        .prop_map(|(seq, limit_sel, period, n_signers, ops)| PCase { seq, limit_sel, period, n_signers, seed: None, ops });
+    // seeded: short histories on a big (expensive) state
+    let seeded = (
+        prop_oneof![3 => 1u32..=6, 2 => 1u32..100_000],
+        limit_idx_strategy(),
+        period_strategy(),
+        1u8..=3,
+        seed,
+        proptest::collection::vec(op, 1..12),
+    )
+        .prop_map(|(seq, limit_sel, period, n_signers, seed, ops)| PCase { seq, limit_sel, period, n_signers, seed: Some(seed), ops });
+    prop_oneof![10 => plain, 1 => seeded].boxed()
+}
+
+#[derive(Clone, Debug)]
+struct Ent {
+    ledger: u32,
+    amt: i128,
+    #[allow(dead_code)]
+    limit_at: i128,
+}
+#[derive(Clone, Debug)]
+struct PM {
+    limit: i128,
+    period: u32,
+    /// every transfer authorized since installation
+    hist: Vec<Ent>,
+}
+impl PM {
+    /// entries inside the window of `period` consecutive ledgers ending at `c`: ledger in (c - period, c]
+    fn window(&self, c: u32) -> (BigInt, usize) {
+        let lo = c as i64 - self.period as i64;
+        let mut sum = BigInt::from(0);
+        let mut cnt = 0usize;
+        for en in &self.hist {
+            if (en.ledger as i64) > lo && en.ledger <= c {
+                sum += BigInt::from(en.amt);
+                cnt += 1;
+            }
+        }
+        (sum, cnt)
+    }
+}
+#[derive(Clone, Debug, PartialEq)]
+struct PD {
+    limit: i128,
+    period: u32,
+    hist: Vec<(u32, i128)>,
+    cached: i128,
+}
+
+fn spending_dump(w: &World) -> Result<Vec<Option<PD>>, Violation> {
+    let e = &w.e;
+    let mut out = vec![];
+    for s in 0..SLOTS.len() {
+        let r = envx::call_t::<SpendingLimitData>(e, &w.policy, "get_spending_limit_data", args![e; w.rule_id(s), w.acct(s).clone()]);
+        out.push(r.ok().map(|d| PD {
+            limit: d.spending_limit,
+            period: d.period_ledgers,
+            hist: d.spending_history.iter().map(|x| (x.ledger_sequence, x.amount)).collect(),
+            cached: d.cached_total_spent,
+        }));
+    }
+    Ok(out)
+}
+
+fn big_to_i128_clamped(b: &BigInt) -> i128 {
+    use num_traits::ToPrimitive;
+    if *b < BigInt::from(0) {
+        0
+    } else {
+        b.to_i128().unwrap_or(i128::MAX)
+    }
+}
+
+/// invariants of the observable state against the model, checked after every step
+fn spending_check_state(d: &[Option<PD>], model: &[Option<PM>], what: &str) -> R {
+    for s in 0..SLOTS.len() {
+        match (&d[s], &model[s]) {
+            (None, None) => {}
+            (Some(pd), Some(pm)) => {
+                ensure!(
+                    pd.limit == pm.limit && pd.period == pm.period,
+                    "C14/spending/state/config-mismatch",
+                    "{what}: slot {s} reports limit {} period {}, model limit {} period {}",
+                    pd.limit,
+                    pd.period,
+                    pm.limit,
+                    pm.period
+                );
+                ensure!(pd.hist.len() <= MAX_HISTORY, "C14/spending/history/longer-than-1000", "{what}: slot {s} stores {} history entries", pd.hist.len());
+                let sum: BigInt = pd.hist.iter().map(|(_, a)| BigInt::from(*a)).sum();
+                ensure!(
+                    sum == BigInt::from(pd.cached),
+                    "C14/spending/cache/not-sum-of-history",
+                    "{what}: slot {s} cached_total_spent {} but stored history sums to {}",
+                    pd.cached,
+                    sum
+                );
+                // "a rejected attempt leaves no trace": the stored history is a suffix of the authorized transfers
+                let k = pd.hist.len();
+                let ok = k <= pm.hist.len() && pm.hist[pm.hist.len() - k..].iter().zip(pd.hist.iter()).all(|(m, (l, a))| m.ledger == *l && m.amt == *a);
+                ensure!(
+                    ok,
+                    "C14/spending/history/not-a-suffix-of-authorized-transfers",
+                    "{what}: slot {s} stored history (len {k}, tail {:?}) is not a suffix of the {} authorized transfers (tail {:?})",
+                    pd.hist.iter().rev().take(3).collect::<Vec<_>>(),
+                    pm.hist.len(),
+                    pm.hist.iter().rev().take(3).collect::<Vec<_>>()
+                );
+            }
+            (a, b) => bail!("C14/spending/state/installed-mismatch", "{what}: slot {s} getter installed = {}, model installed = {}", a.is_some(), b.is_some()),
+        }
+    }
+    Ok(())
+}
+
+fn resolve_lim(l: &LimSel, m: Option<&PM>, c: u32) -> i128 {
+    match l {
+        LimSel::Lattice(i) => LIMITS[*i as usize % LIMITS.len()],
+        LimSel::SpentPlus(d) => {
+            let spent = m.map(|m| m.window(c).0).unwrap_or_else(|| BigInt::from(0));
+            let v = spent + BigInt::from(*d);
+            if v < BigInt::from(0) {
+                -1
+            } else {
+                big_to_i128_clamped(&v)
+            }
+        }
+        LimSel::Zero => 0,
+        LimSel::Neg => -1,
+    }
+}
+
+pub fn run_spending(case: &PCase, ctx: &mut Ctx) -> R {
+    let n = case.n_signers.clamp(1, 3) as usize;
+    let w = World::new(case.seq, Kind::Spending, n, 0b010, case.seed.is_some());
+    let e = &w.e;
+    let mut model: Vec<Option<PM>> = vec![None; SLOTS.len()];
+    let dump = || spending_dump(&w);
+    let limit0 = LIMITS[case.limit_sel as usize % LIMITS.len()];
+    let period0 = case.period.max(1);
+
+    // ---- set-up: install the main slot (exact entry)
+    {
+        let params = SpendingLimitAccountParams { spending_limit: limit0, period_ledgers: period0 };
+        let args = args![e; params, w.rule(0, n), w.acct(0).clone()];
+        let r = w.call_authorized("install", &args, 0, false);
+        ensure!(r.is_ok(), "C14/spending/install/valid-install-refused", "set-up install(limit {limit0}, period {period0}) failed: {:?}", r);
+        model[0] = Some(PM { limit: limit0, period: period0, hist: vec![] });
+    }
+    // ---- optional: history near the 1000-entry bound
+    if let Some(sd) = &case.seed {
+        let count = sd.count.clamp(1, 1000) as u64;
+        let span: u64 = match sd.span % 4 {
+            0 => 0,
+            1 => 1,
+            2 => (period0 as u64 - 1) / 2,
+            _ => period0 as u64 - 1,
+        }
+        .min(period0 as u64 - 1)
+        .min(3000);
+        let amt: i128 = if limit0 < 2000 { 0 } else { (sd.amt % 2) as i128 };
+        let start = envx::seq(e) as u64;
+        let ledger_of = |i: u64| (start + if count > 1 { i * span / (count - 1) } else { 0 }) as u32;
+        let via_api = sd.via_api && ctx.tier() == Tier::Thorough;
+        let pm = model[0].as_mut().unwrap();
+        if via_api {
+            ctx.class("spending_seeded_via_api");
+            let auth = w.subset(n, 1, 0);
+            for i in 0..count {
+                envx::set_seq(e, ledger_of(i));
+                let args = args![e; w.ctx(&CtxKind::Transfer, amt), auth.clone(), w.rule(0, n), w.acct(0).clone()];
+                let r = w.call_authorized("enforce", &args, 0, false);
+                ensure!(r.is_ok(), "C14/spending/enforce/rejected-within-limit", "API fill: transfer {i} of {count} (amount {amt}, limit {limit0}) rejected: {:?}", r);
+                pm.hist.push(Ent { ledger: ledger_of(i), amt, limit_at: limit0 });
+            }
+        } else {
+            ctx.class("spending_seeded_storage");
+            let mut hv: SVec<SpendingEntry> = SVec::new(e);
+            for i in 0..count {
+                hv.push_back(SpendingEntry { amount: amt, ledger_sequence: ledger_of(i) });
+                pm.hist.push(Ent { ledger: ledger_of(i), amt, limit_at: limit0 });
+            }
+            let data = SpendingLimitData {
+                spending_limit: limit0,
+                period_ledgers: period0,
+                spending_history: hv,
+                cached_total_spent: amt * count as i128,
+            };
+            let key = SpendingLimitStorageKey::AccountContext(w.acct(0).clone(), w.rule_id(0));
+            e.as_contract(&w.policy, || e.storage().persistent().set(&key, &data));
+        }
+        envx::set_seq(e, (start + span) as u32);
+    }
+
+    let mut before = dump()?;
+    spending_check_state(&before, &model, "after set-up")?;
+    let (mut accepted, mut rej_in_window, mut edge_crossed) = (0u32, false, false);
+
+    for (step, op) in case.ops.iter().enumerate() {
+        let c = envx::seq(e);
+        match op {
+            POp::Advance(a) => {
+                let now = c as i64;
+                let main = model.iter().flatten().next();
+                let target: i64 = match a {
+                    Adv::By(k) => now + *k as i64,
+                    Adv::Period(d) => now + (main.map(|m| m.period as i64).unwrap_or(1) + *d as i64).max(0),
+                    Adv::ToEdge { which, d } => match main {
+                        Some(m) => {
+                            let cands: Vec<i64> = m
+                                .hist
+                                .iter()
+                                .map(|en| en.ledger as i64 + m.period as i64 + *d as i64)
+                                .filter(|t| *t > now && *t - now <= MAX_JUMP)
+                                .collect();
+                            if cands.is_empty() {
+                                now + (*d as i64 + 1)
+                            } else {
+                                ctx.class("spending_advance_to_edge");
+                                cands[pick(*which, cands.len())]
+                            }
+                        }
+                        None => now + 1,
+                    },
+                };
+                let target = if target - now > MAX_JUMP { now + 1 } else { target };
+                let target = target.clamp(now, u32::MAX as i64 / 2) as u32;
+                // does an authorized transfer leave the window of some slot?
+                for m in model.iter().flatten() {
+                    let inside = |en: &Ent, at: u32| (en.ledger as i64) > at as i64 - m.period as i64;
+                    if m.hist.iter().any(|en| inside(en, c) && !inside(en, target)) {
+                        edge_crossed = true;
+                        ctx.class("spending_advance_across_window_edge");
+                    }
+                }
+                envx::set_seq(e, target);
+                // the ledger is not contract state: nothing else to compare
+                continue;
+            }
+            POp::Attempt { slot, ctx: ck, amt, signers, bad, surplus } => {
+                let s = *slot as usize % SLOTS.len();
+                let (limit, wsum, wcount) = match &model[s] {
+                    Some(m) => {
+                        let (a, b) = m.window(c);
+                        (m.limit, a, b)
+                    }
+                    None => (100, BigInt::from(0), 0),
+                };
+                let amount: i128 = match amt {
+                    Amt::Zero => 0,
+                    Amt::One => 1,
+                    Amt::Small(x) => *x as i128,
+                    Amt::RemPlus(d) => big_to_i128_clamped(&(BigInt::from(limit) - &wsum + BigInt::from(*d))),
+                    Amt::LimitPlus(d) => big_to_i128_clamped(&(BigInt::from(limit) + BigInt::from(*d))),
+                    Amt::Large(i) => LARGE[*i as usize % LARGE.len()],
+                };
+                let k = (*signers as usize).min(n);
+                let auth = w.subset(n, k, 0);
+                let args = args![e; w.ctx(ck, amount), auth, w.rule(s, n), w.acct(s).clone()];
+                let well_formed = *ck == CtxKind::Transfer;
+                let within = &wsum + BigInt::from(amount) <= BigInt::from(limit);
+                let has_room = wcount < MAX_HISTORY;
+                let expected = model[s].is_some() && k > 0 && well_formed && within && has_room;
+
+                let (can, can_failed) = w.can_enforce(&args);
+                if can_failed {
+                    ctx.class("can_enforce_call_failed");
+                }
+                probe_unauthorized(&w, ctx, "spending", "enforce", &args, s, bad, &before, &dump)?;
+                let r = w.call_authorized("enforce", &args, s, *surplus);
+                ctx.op(r.is_ok());
+                let ok = r.is_ok();
+                let after = dump()?;
+                let what = format!(
+                    "step {step} ledger {c} slot {s} {:?} amount {amount} signers {k}: limit {limit}, spent in window {wsum} over {wcount} entries, period {:?}",
+                    ck,
+                    model[s].as_ref().map(|m| m.period)
+                );
+                if ok {
+                    // ---- safety (the statement)
+                    ensure!(model[s].is_some(), "C14/spending/enforce/accepted-uninstalled", "{what}: enforce succeeded on a slot that is not installed");
+                    ensure!(within, "C14/spending/window/limit-exceeded", "{what}: transfer authorized although window total would be {} > limit", &wsum + BigInt::from(amount));
+                    ensure!(well_formed, "C14/spending/enforce/accepted-non-transfer-context", "{what}: enforce accepted a context that is not a well-formed transfer");
+                    ensure!(k > 0, "C14/spending/enforce/accepted-without-signers", "{what}: enforce accepted an empty authenticated-signer list");
+                    let m = model[s].as_mut().unwrap();
+                    m.hist.push(Ent { ledger: c, amt: amount, limit_at: limit });
+                    let pd = after[s].as_ref();
+                    ensure!(pd.is_some(), "C14/spending/state/installed-mismatch", "{what}: no data after a successful enforce");
+                    let pd = pd.unwrap();
+                    ensure!(
+                        BigInt::from(pd.cached) == &wsum + BigInt::from(amount),
+                        "C14/spending/cache/not-window-sum",
+                        "{what}: after the authorized transfer cached_total_spent = {}, model window sum = {}",
+                        pd.cached,
+                        &wsum + BigInt::from(amount)
+                    );
+                    ensure!(pd.hist.len() <= MAX_HISTORY, "C14/spending/history/longer-than-1000", "{what}: {} history entries", pd.hist.len());
+                    for o in 0..SLOTS.len() {
+                        if o != s {
+                            ensure!(after[o] == before[o], "C14/spending/enforce/touched-other-slot", "{what}: slot {o} changed");
+                        }
+                    }
+                    accepted += 1;
+                    ctx.class("spending_accepted");
+                    let mh = &model[s].as_ref().unwrap().hist;
+                    if mh.len() >= 2 && mh[mh.len() - 2].ledger == c {
+                        ctx.class("spending_accepted_same_ledger_as_previous");
+                    }
+                    if &wsum + BigInt::from(amount) == BigInt::from(limit) {
+                        ctx.class("spending_accepted_exactly_at_limit");
+                    }
+                    if wcount == MAX_HISTORY - 1 {
+                        ctx.class("spending_accepted_1000th_entry");
+                    }
+                } else {
+                    ensure!(after == before, "C14/spending/enforce/failed-call-left-trace", "{what}: enforce failed but get_spending_limit_data changed");
+                    // ---- exactness (module docs: accepted when within the limit, >= 1 signer, capacity left)
+                    ensure!(!expected, "C14/spending/enforce/rejected-within-limit", "{what}: enforce rejected a transfer the documented rule accepts: {:?}", r);
+                    if model[s].is_some() && k > 0 && well_formed {
+                        if !within {
+                            ctx.class("spending_rejected_over_limit");
+                            if wcount > 0 {
+                                rej_in_window = true;
+                            }
+                            if &wsum + BigInt::from(amount) == BigInt::from(limit) + BigInt::from(1) {
+                                ctx.class("spending_rejected_one_over_limit");
+                            }
+                        } else {
+                            ctx.class("spending_rejected_history_full");
+                        }
+                    } else if !well_formed {
+                        ctx.class("spending_rejected_non_transfer");
+                    } else if k == 0 {
+                        ctx.class("spending_rejected_no_signers");
+                    }
+                }
+                ensure!(
+                    ok == can,
+                    "C14/spending/enforce/disagrees-with-can_enforce",
+                    "{what}: can_enforce = {can} (call failed: {can_failed}) but authorized enforce -> {:?}",
+                    r
+                );
+                spending_check_state(&after, &model, &what)?;
+                before = after;
+            }
+            POp::SetLimit { slot, lim, bad, surplus } => {
+                let s = *slot as usize % SLOTS.len();
+                let l = resolve_lim(lim, model[s].as_ref(), c);
+                let args = args![e; l, w.rule(s, n), w.acct(s).clone()];
+                probe_unauthorized(&w, ctx, "spending", "set_spending_limit", &args, s, bad, &before, &dump)?;
+                let r = w.call_authorized("set_spending_limit", &args, s, *surplus);
+                ctx.op(r.is_ok());
+                let after = dump()?;
+                let what = format!("step {step} set_spending_limit({l}) slot {s}");
+                if r.is_ok() {
+                    ensure!(l > 0, "C14/spending/set_spending_limit/non-positive-accepted", "{what}: succeeded");
+                    ensure!(model[s].is_some(), "C14/spending/set_spending_limit/accepted-uninstalled", "{what}: succeeded on a slot that is not installed");
+                    model[s].as_mut().unwrap().limit = l;
+                    let mut want = before.clone();
+                    want[s].as_mut().unwrap().limit = l;
+                    ensure!(after == want, "C14/spending/set_spending_limit/changed-more-than-limit", "{what}: before {:?} after {:?}", before[s].as_ref().map(|d| (d.limit, d.period, d.hist.len(), d.cached)), after[s].as_ref().map(|d| (d.limit, d.period, d.hist.len(), d.cached)));
+                    ctx.class("spending_set_limit_ok");
+                } else {
+                    ensure!(after == before, "C14/spending/set_spending_limit/failed-call-left-trace", "{what}: failed but state changed");
+                    ensure!(!(l > 0 && model[s].is_some()), "C14/spending/set_spending_limit/valid-limit-refused", "{what}: failed: {:?}", r);
+                    ctx.class("spending_set_limit_refused");
+                }
+                spending_check_state(&after, &model, &what)?;
+                before = after;
+            }
+            POp::Install { slot, lim, period, bad, surplus } => {
+                let s = *slot as usize % SLOTS.len();
+                let l = resolve_lim(lim, model[s].as_ref(), c);
+                let params = SpendingLimitAccountParams { spending_limit: l, period_ledgers: *period };
+                let args = args![e; params, w.rule(s, n), w.acct(s).clone()];
+                probe_unauthorized(&w, ctx, "spending", "install", &args, s, bad, &before, &dump)?;
+                let r = w.call_authorized("install", &args, s, *surplus);
+                ctx.op(r.is_ok());
+                let after = dump()?;
+                let what = format!("step {step} install(limit {l}, period {period}) slot {s}");
+                let valid = l > 0 && *period > 0;
+                if r.is_ok() {
+                    ensure!(valid, "C14/spending/install/invalid-params-accepted", "{what}: succeeded");
+                    ensure!(model[s].is_none(), "C14/spending/install/reinstall-accepted", "{what}: succeeded although already installed");
+                    model[s] = Some(PM { limit: l, period: *period, hist: vec![] });
+                    ctx.class("spending_install_ok");
+                } else {
+                    ensure!(after == before, "C14/spending/install/failed-call-left-trace", "{what}: failed but state changed");
+                    ensure!(!(valid && model[s].is_none()), "C14/spending/install/valid-install-refused", "{what}: failed: {:?}", r);
+                    ctx.class("spending_install_refused");
+                }
+                spending_check_state(&after, &model, &what)?;
+                before = after;
+            }
+            POp::Uninstall { slot, bad, surplus } => {
+                let s = *slot as usize % SLOTS.len();
+                let args = args![e; w.rule(s, n), w.acct(s).clone()];
+                probe_unauthorized(&w, ctx, "spending", "uninstall", &args, s, bad, &before, &dump)?;
+                let r = w.call_authorized("uninstall", &args, s, *surplus);
+                ctx.op(r.is_ok());
+                let after = dump()?;
+                let what = format!("step {step} uninstall slot {s}");
+                if r.is_ok() {
+                    model[s] = None;
+                    ctx.class("spending_uninstall_ok");
+                } else {
+                    ensure!(after == before, "C14/spending/uninstall/failed-call-left-trace", "{what}: failed but state changed");
+                    ensure!(model[s].is_none(), "C14/spending/uninstall/refused", "{what}: uninstall of an installed policy failed: {:?}", r);
+                }
+                spending_check_state(&after, &model, &what)?;
+                before = after;
+            }
+        }
+    }
+    if accepted >= 1 && rej_in_window && edge_crossed {
+        ctx.nontrivial = true;
+        ctx.class("nontrivial");
+        ctx.class("nontrivial_spending");
+    }
+    Ok(())
+}
+
 
 pub fn property() -> Property {
-    Property { id: "C14", rule: "", subs: vec![], floors: vec![], assumptions: vec![] }
+    Property {
+        id: "C14",
+        rule: "three generated subs against ThresholdPolicyContract / WeightedPolicy / SpendingLimitPolicyContract with a plain-actor smart account: \
+               simple = rule with 0..15 signers, histories of install/set_threshold/uninstall/resize/check(can_enforce then enforce) with thresholds {0,1,n-1,n,n+1,MAX} and |authenticated| = threshold+{-1,0,1}; \
+               weighted = weight maps (weights near u32::MAX, totals past it, keys = rule signers + <=2 extras), thresholds around the total / around a subset sum, set_signer_weight/set_threshold histories; \
+               spending = limit from a positive lattice, period in {1,2,3,5,..,u32::MAX}, <=50 (thorough 80) ops: transfer attempts with amount {0,1,small,limit-spent+{-1,0,1},large}, \
+               set_spending_limit, ledger advances to window edge -1/0/+1, non-transfer and malformed contexts, empty signer list, optional 998..1000-entry seeded history; \
+               every state-changing call is first tried WITHOUT the account's exact entry (none / other account / wrong fn / wrong args) and then with it. \
+               non-trivial: simple/weighted = both can_enforce answers occur in the case; spending = >=1 authorized transfer, >=1 over-limit rejection while an authorized transfer is in the same window, and an advance that moves an authorized transfer out of the window; distinct = distinct serialised case",
+        subs: vec![
+            gen_sub::<SimpleCase>("simple", 1000, 20000, simple_strategy, run_simple),
+            gen_sub::<WCase>("weighted", 1000, 20000, weighted_strategy, run_weighted),
+            gen_sub::<PCase>("spending", 1000, 20000, spending_strategy, run_spending),
+        ],
+        floors: vec![
+            ("nontrivial_simple", 50, 500),
+            ("nontrivial_weighted", 40, 400),
+            ("nontrivial_spending", 50, 500),
+            ("simple_exactly_at_threshold", 80, 800),
+            ("simple_one_below_threshold", 60, 600),
+            ("simple_install_refused_invalid", 130, 1300),
+            ("weighted_exactly_at_threshold", 40, 400),
+            ("weighted_one_below_threshold", 15, 150),
+            ("weighted_install_sum_past_u32", 40, 400),
+            ("weighted_set_weight_sum_past_u32", 20, 200),
+            ("spending_accepted_exactly_at_limit", 170, 1700),
+            ("spending_rejected_one_over_limit", 130, 1300),
+            ("spending_advance_across_window_edge", 150, 1500),
+            ("spending_rejected_non_transfer", 250, 2500),
+            ("spending_rejected_no_signers", 100, 1000),
+            ("spending_rejected_history_full", 2, 20),
+            ("spending_accepted_1000th_entry", 1, 10),
+            ("unauthorized_attempt", 3000, 30000),
+        ],
+        assumptions: vec![
+            "Soroban native test host (storage, rollback of failed invocations, auth matching) is trusted",
+            "the smart account is a plain actor: its authorization == an exact entry for the invocation is attached",
+            "policy inputs domain: authenticated_signers is a duplicate-free subset of context_rule.signers; amounts >= 0; ledgers >= 1 and monotone",
+            "weighted 'unreachable' = threshold > sum of configured weights (docs/code definition), not reachability by the rule's signers",
+            "spending window = ledgers (c - period, c]: an entry at ledger c - period is outside (module docs: entries <= current - period are evicted)",
+            "seeded 998..1000-entry histories are written through the pub storage types with the test host's mainnet resource limits lifted (an ~80 KB entry exceeds the 64 KiB mainnet ledger-entry limit)",
+        ],
+    }
 }
